@@ -37,6 +37,9 @@ pub struct BackendError { pub _p: () }
 /// VALUE only (formatting is a function)
 pub uninterp spec fn rfc3339_ok(t: Instant) -> bool;
 impl UtcDateTime {
+    /// crates/core/src/date_time.rs `now` = `OffsetDateTime::now_utc()`: the clock — any instant
+    #[verifier::external_body]
+    pub fn now() -> (r: UtcDateTime) { unimplemented!() }
     /// crates/core/src/date_time.rs `to_rfc3339` = `OffsetDateTime::format(&Rfc3339)`.
     /// ASSUMED: the text parses back to the same instant (prelude/dblog_types.rs); whether formatting
     /// succeeds depends on the instant only.
